@@ -203,6 +203,7 @@ func RunFlow(w *World, spec *RunSpec, tune func(f *Flow)) *Flow {
 		w.Broker.HandshakeHook = f.hostileHandshake
 	}
 	w.Budget = f.O.Budget
+	w.FaultFrom = f.O.FaultFrom
 	if f.O.Generations < 1 {
 		f.O.Generations = 1
 	}
